@@ -169,11 +169,32 @@ class CardInterp:
                         x.n if lst.n == 0 else None)
                     env[c.func.value.id] = V("list", n, join(lst.elem, x.elem))
                     return True
+            if isinstance(c, ast.Call) and isinstance(c.func, ast.Attribute) and isinstance(c.func.value, ast.Name) \
+                    and c.func.value.id in env and env[c.func.value.id].kind == "dict" and \
+                    c.func.attr in ("setdefault", "update", "pop", "popitem", "clear"):
+                cur = env[c.func.value.id]
+                env[c.func.value.id] = V("dict", None, cur.elem, src=None)      # keys added / removed: order unknown
+                return True
             self.ev(c, env)
             return True
         if isinstance(st, ast.Assign):
             v = self.ev(st.value, env)
             for t in st.targets:
+                if isinstance(t, ast.Subscript) and isinstance(t.value, ast.Name) and t.value.id in env:
+                    cur = env[t.value.id]
+                    if cur.kind == "list":
+                        # L[i] = v: a slot of a pre-sized list is filled (the placeholder None is not an element)
+                        old = cur.elem if cur.elem is not None and cur.elem.kind != "none" else None
+                        env[t.value.id] = V("list", cur.n, join(old, v), src=cur.src)
+                        continue
+                    if cur.kind == "dict":
+                        k = self.ev(t.slice, env)
+                        # an entry written under one of the arms keeps the keys (and their order); any other key may
+                        # be a new one, appended behind the existing keys
+                        keeps = k.kind == "scalar" and k.src == "label"
+                        env[t.value.id] = V("dict", cur.n if keeps else None, join(cur.elem, v),
+                                            src=cur.src if keeps else None)
+                        continue
                 self.bind(t, v, env)
             return True
         if isinstance(st, ast.AnnAssign):
@@ -230,7 +251,10 @@ class CardInterp:
     def loop(self, st, it, env, rets):
         """one abstract turn; lists appended to exactly c times per turn grow by c * len(iterable)"""
         from .common import _count_writes
-        lists = [k for k, v in env.items() if v.kind == "list"]
+        grown = {n.func.value.id for n in ast.walk(st) if isinstance(n, ast.Call) and
+                 isinstance(n.func, ast.Attribute) and n.func.attr in ("append", "extend", "insert") and
+                 isinstance(n.func.value, ast.Name)}
+        lists = [k for k, v in env.items() if v.kind == "list" and k in grown]
         before = {k: env[k] for k in lists}
         for k in lists:
             env[k] = V("list", 0, None)
